@@ -15,7 +15,7 @@ CASES = {"quick": 90, "thorough": 1200}
 FLOORS = {
     "quick": {"distinct_nontrivial": 320, "table_rows_checked": 61000, "greedy_compared": 490,
               "cases[max_interval_length==2*msl]": 140, "cases[n==2*msl]": 41, "tie_branches_explored": 20,
-              "threshold_pairs": 450},
+              "threshold_pairs": 450, "long_series_cases": 2, "table_rows_with_more_than_16384_splits": 2},
     "thorough": {"distinct_nontrivial": 2500, "table_rows_checked": 300000},
 }
 ANCHORS = [
@@ -76,8 +76,32 @@ def fresh_score(spec_cs, X):
     return to_change_score(CUSUM() if cs is None else cs).fit(X)
 
 
+def long_recipe(rng):
+    """One long series per run (shard 0): candidate intervals with tens of thousands of admissible splits, i.e.
+    evaluate() batches far beyond anything the short cases produce (block-wise / chunked evaluation paths).
+    The data are regenerated from the seed; the recipe stays small."""
+    n = int(rng.integers(36000, 46000))
+    msl = int(rng.integers(1500, 3500))
+    cs = [None, S("L2Cost", param=None), S("CUSUM")][int(rng.integers(3))]
+    spec = S("SeededBinarySegmentation", change_score=cs, threshold_scale=1.0, level=0.01, min_segment_length=msl,
+             max_interval_length=n, growth_factor=float(rng.choice([1.5, 2.0])))
+    return {"det": spec, "long": {"n": n, "p": 2, "seed": int(rng.integers(2 ** 31))}, "data_kind": "long",
+            "int_dtype": False, "history": None, "hseed": 0, "frame": None}
+
+
+def _long_data(d):
+    rng = np.random.default_rng(d["seed"])
+    X = rng.standard_normal((d["n"], d["p"]))
+    # a shift in the last tenth of the series: the best split of the long intervals lies in their tail
+    X[int(d["n"] * rng.uniform(0.88, 0.93)):] += 0.15
+    X[int(d["n"] * rng.uniform(0.3, 0.6)):] += 0.05
+    return X
+
+
 def exec_case(ctx, r):
-    X = np.asarray(r["X"], dtype=float)
+    X = _long_data(r["long"]) if r.get("long") else np.asarray(r["X"], dtype=float)
+    if r.get("long"):
+        ctx.stat("long_series_cases")
     if r.get("int_dtype"):
         X = X.astype(np.int64)  # the same numbers passed with an integer dtype
     n, p = X.shape
@@ -140,7 +164,10 @@ def exec_case(ctx, r):
         splits = np.arange(st[i] + msl, en[i] - msl + 1)
         cuts = np.column_stack((np.full(splits.size, st[i]), splits, np.full(splits.size, en[i])))
         with np.errstate(all="ignore"):
-            agg = cs.evaluate(cuts).sum(axis=1)
+            # the reference evaluates in small batches: a row's value must not depend on the size of the batch
+            agg = np.concatenate([cs.evaluate(cuts[a:a + 1000]).sum(axis=1) for a in range(0, len(cuts), 1000)])
+        if len(cuts) > 16384:
+            ctx.stat("table_rows_with_more_than_16384_splits")
         ctx.stat("table_rows_checked")
         if not (np.all(np.isfinite(agg)) and np.isfinite(sc[i])):
             ctx.stat("nonfinite_rows_skipped")  # overflowing data: only the selection clauses are judged
@@ -206,7 +233,7 @@ def exec_case(ctx, r):
             ctx.violation("contract-K1", "malformed", f"{label}: {h['message']}", r)
     n_above = int(above.sum())
     if n_above >= 2 and len(cp) < n_above:
-        ctx.nt(digest([spec, r["X"]]))
+        ctx.nt(digest([spec, r.get("long") or r["X"]]))
     ctx.sample({"case": label, "rows": int(len(st)), "rows_above_threshold": n_above,
                 "changepoints": cp, "threshold": thr}, cap=3)
 
@@ -215,6 +242,9 @@ def run(ctx):
     I.install()
     for _ in range(CASES[ctx.tier]):
         exec_case(ctx, make_recipe(ctx.rng, ctx.tier))
+    if ctx.shard < 4:  # four long series per quick run (different lengths, minimum lengths, shift positions)
+        for _ in range(1 if ctx.tier == "quick" else 3):
+            exec_case(ctx, long_recipe(ctx.rng))
 
 
 def replay(ctx, sub, recipe):
